@@ -204,7 +204,8 @@ def compute_polymer_connection(
     )
     connected = jnp.zeros_like(matrix, dtype=bool)
     if connected_slice is None:
-        connected = connected.at[..., 0].set(True)
+        # the bottom layer of a padded (single-layer) matrix sits at index 1
+        connected = connected.at[..., 1 if padded else 0].set(True)
     else:
         connected = connected.at[connected_slice].set(True)
 
